@@ -12,7 +12,7 @@ RULE = ("Hypothesis draws a TT tensor/operator (order 1-6, any rank profile 1-4,
         "several ways - from cores, by TT-SVD with active truncation or by round() (rank list holds numpy integers), "
         "by strided slicing / t() / conj() (non-contiguous or lazily-conjugated core views), with requires_grad cores - "
         "and one of save+load, clone, detach, to(dtype), to(), cpu, numpy. Oracle: round trip (kind, N, M, R as ints, "
-        "dtype, torch.equal cores), storage disjointness and independence for clone, value equality on the checker's "
+        "dtype, torch.equal cores), storage disjointness and independence for clone (in-place edits of the copy's cores; for every copy a set_core that changes a mode size on one object leaves the other's N/M/R/shape intact), value equality on the checker's "
         "dense contraction (converted dtype for to). Non-trivial: some rank>1 and, for save/load, numpy-int ranks or a "
         "non-contiguous core. Distinct = structural signature.")
 BUDGET = {"quick": 4000, "thorough": 360000}
@@ -117,6 +117,32 @@ def execute(case):
         ok = ok and ck.require(all(c.dtype == dtype for c in y.cores), what + "_dtype", "dtype %s" % y.cores[0].dtype)
         return ok
 
+    def meta_independent(y, what):
+        """the documented in-place set_core (it may change a mode size) on the copy or on the source must leave the other
+        object's N / M / R / shape as they were and consistent with its own cores (a copy owns its bookkeeping)"""
+        if ck.failed is not None:
+            return
+        d_ = len(x.N)
+        k = case["x"]["seed"] % d_
+        a, b = (x, y) if (case["x"]["seed"] // 3) % 2 == 0 else (y, x)       # a is modified, b is watched
+        before = ([int(n) for n in b.N], [int(m) for m in b.M] if ttm else None, [int(r) for r in b.R], list(b.shape))
+        old = a.cores[k].detach()
+        shp = list(old.shape)
+        shp[1] += 1
+        if ttm:
+            shp[2] += 2
+        new = torch.zeros(shp, dtype=old.dtype)
+        try:
+            lib(lambda: a.set_core(k, new))
+        except core.LibraryException:
+            return      # set_core itself is C05's / C18's business
+        ck.label("meta_independence:" + what)
+        now = ([int(n) for n in b.N], [int(m) for m in b.M] if ttm else None, [int(r) for r in b.R], list(b.shape))
+        ck.require(now == before, what + "_meta_shared", "set_core on the %s changed the %s's bookkeeping: N/M/R/shape %s -> %s" % (
+            "source" if a is x else "copy", "copy" if a is x else "source", before, now))
+        own_N = [int(c.shape[-2]) for c in b.cores]
+        ck.require(own_N == [int(n) for n in b.N], what + "_meta_inconsistent", "N %s does not match the object's own cores %s" % (b.N, own_N))
+
     if op == "saveload":
         with tempfile.TemporaryDirectory(prefix="vt_c19_") as td:
             path = os.path.join(td, "x.TT")
@@ -138,17 +164,20 @@ def execute(case):
                     c.detach().mul_(2.0).add_(1.0)
             ck.require(all(torch.equal(a.detach().resolve_conj(), b.resolve_conj()) for a, b in zip(x.cores, snap)), "clone_independent",
                        "editing the clone in place changed the original")
+            meta_independent(y, "clone")
         ck.nontrivial = big
     elif op == "detach":
         y = lib(lambda: x.detach())
         if same_meta(y, "detach", DT[dt]):
             ck.require(all(not c.requires_grad for c in y.cores), "detach_requires_grad", "detached cores still require grad")
             ck.require(core.bit_equal(dense(y.cores), xd), "detach_value", "detach changed the value")
+            meta_independent(y, "detach")
         ck.nontrivial = big and src == "grad"
     elif op in ("to_none", "cpu"):
         y = lib(lambda: x.to() if op == "to_none" else x.cpu())
         if same_meta(y, op, DT[dt]):
             ck.require(core.bit_equal(dense(y.cores), xd), op + "_value", "%s changed the value" % op)
+            meta_independent(y, op)
         ck.nontrivial = big
     elif op == "to_dtype":
         to = case["to"]
@@ -162,6 +191,7 @@ def execute(case):
             # and against the dense conversion within the roundoff of the coarser dtype
             uu = max(UNIT[to], UNIT[dt])
             ck.bound(fro(dense(y.cores) - xd), 64 * len(x.N) * max(int(r) for r in x.R) * uu * max(fro(dense_abs(snap)), 1e-300), "to_value_roundoff")
+            meta_independent(y, "to")
         ck.nontrivial = big and to != dt
     elif op == "numpy":
         if any(c.requires_grad for c in x.cores):
